@@ -21,7 +21,9 @@ TrNext ==
   \/ Step("feed") /\ Feed(Ev.c, Ev.k)
   \/ Step("eof") /\ Eof(Ev.c)
   \/ Step("deliver") /\ Ev.i = nxt[Ev.c] /\ Deliver(Ev.c)
-  \/ Step("error") /\ SkipWithError(Ev.c)
+  \* an error reply answers the message it skips: it carries that message's transaction id (Ev.k = index of the
+  \* message whose id the reply carries; nothing is promised about the header fields of junk)
+  \/ Step("error") /\ (Cls(Ev.c) = "junk" \/ Ev.k = nxt[Ev.c]) /\ SkipWithError(Ev.c)
   \/ Step("skipq") /\ SkipQuietly(Ev.c)
   \/ Step("close") /\ Close(Ev.c)
   \/ Step("garbage") /\ Garbage(Ev.c)
